@@ -298,6 +298,9 @@ func (sp *Spec) ProcessAttestation(st *State, att *Attestation) error {
 	if st.Fork < Deneb && !(st.Slot <= data.Slot+sp.SLOTS_PER_EPOCH) {
 		return reject("attestation: state.slot <= slot + SLOTS_PER_EPOCH")
 	}
+	if st.Fork >= Deneb && st.Slot > data.Slot+sp.SLOTS_PER_EPOCH {
+		sp.observe("deneb_attestations_included_more_than_one_epoch_late")
+	}
 	if !(data.Index < sp.CommitteeCountPerSlot(st, data.Target.Epoch)) {
 		return reject("attestation: index < committee count")
 	}
